@@ -5,7 +5,7 @@ from .. import rt, judge
 from ..ctx import Ctx
 from ..oread import read_smiles
 from ..symstr import make_slots
-from . import c03
+from . import c03, c04
 
 ISO = ["", "1", "13", "013", "0", "235", "999"]
 ELEM = ["C", "N", "Fe", "Cl", "Si", "H", "c", "n", "se", "Na", "U"]
@@ -56,6 +56,8 @@ def run(rep, tier, seed, budget):
         plan.append(("uniform N=%d tokens" % n, lambda n=n: make_slots("s", [TOK] * n), {"tokens": TOK, "N_tokens": n}, "relaxed"))
     for i, t in enumerate(c03.TEMPLATES3):
         plan.append(("spelling template %d" % i, lambda t=t: make_slots("s", t), {"template": t}, "relaxed"))
+    for i, t in enumerate(c04.TEMPLATES4):
+        plan.append(("stereo template %d (marks on chain and ring-closure bonds, chiral centres)" % i, lambda t=t: make_slots("s", t), {"template": t}, "relaxed"))
     for i, t in enumerate(c03.spacer_inputs()[:2 if quick else 4]):
         plan.append(("long ring span / branch %d (1, 2, 3 index symbols)" % i, lambda t=t: make_slots("s", t),
                      {"template": [x if len(x) < 30 else "C*%d" % len(x) for x in t]}, "relaxed"))
